@@ -8,3 +8,10 @@ Theorem C14_resolver_sites : forallb (fun x : str * bool => snd x) resolver_site
 Proof. vm_compute. reflexivity. Qed.
 Print Assumptions C14_resolver_sites.
 
+
+(* member lookup of the shared ZIP context (base of the docx/pptx/xlsx/odt/odp/ods/odg/epub contexts) is by exact
+   name: `path in set(zip.namelist())`, `zip.read(path)`; no subclass overrides an accessor.  The model's
+   member_of / mem_str is that lookup.  Fail-closed AST match: a case-folding or normalising lookup breaks this. *)
+Theorem C14_zip_lookup_exact : forallb (fun x : str * bool => snd x) zip_lookup_sites = true.
+Proof. vm_compute. reflexivity. Qed.
+Print Assumptions C14_zip_lookup_exact.
